@@ -1,5 +1,5 @@
 (* C01 — Log ingest-to-query round trip is lossless and exact.
-   Statements only; proofs in SigP.TlvProofs / SigP.TsEncProofs / SigP.ColStoreProofs.
+   Statements only; proofs in SigP.TlvProofs / SigP.TsEncProofs / SigP.ColStoreProofs / SigP.ReaderReuseProofs.
 
    Model (SigM.Tlv, SigM.TsEnc, SigM.ColStore): the flattened (column, typed value) pairs of an
    event as ParseRawJsonObject hands them to the writer; the open block as per-column buffers with
@@ -8,8 +8,8 @@
    block); the readers (ReadDictEnc + deGetRec, raw iteration with getCurrentRecordLength, the
    constant-record-length shortcut, GetCvalFromRec, convertRawRecordsToTimestamps); match-all over
    the blocks of a segment.  strconv.ParseFloat / FormatFloat are parameters [fc]. *)
-From SigM Require Import Base Tlv TsEnc ColStore.
-From SigP Require Import BaseProofs TlvProofs TsEncProofs ColStoreProofs.
+From SigM Require Import Base Tlv TsEnc ColStore ReaderReuse.
+From SigP Require Import BaseProofs TlvProofs TsEncProofs ColStoreProofs ReaderReuseProofs.
 Open Scope N_scope.
 
 (* ---------- codecs ---------- *)
@@ -213,3 +213,60 @@ Theorem C01_store_roundtrip_refuted_bool_number :
               out_col outs 0 k = [VNull; VStr s_true; VStr [53]].
 Proof. exact store_roundtrip_refuted_bool_number. Qed.
 Print Assumptions C01_store_roundtrip_refuted_bool_number.
+
+(* ---------- readers kept across blocks (SigM.ReaderReuse) ---------- *)
+(* One block worker of a segment search uses one TimeRangeReader and one SegmentFileReader per column for
+   every block it is handed, in any order.  The readers keep their file read buffer while it is long enough
+   (the tail of a longer, earlier block stays behind the bytes of the current one) and the dictionary table
+   deRecToTlv (ResizeSlice keeps the old entries). *)
+
+(* The reused read buffer: its first len(blk) bytes are the block just read, whatever it held before. *)
+Theorem C01_read_buffer_prefix : forall buf blk,
+  firstn (length blk) (buf_load buf blk) = blk /\ length (buf_load buf blk) = Nat.max (length buf) (length blk).
+Proof. intros buf blk. split; [apply buf_load_prefix | apply buf_load_length]. Qed.
+Print Assumptions C01_read_buffer_prefix.
+
+(* Whatever sequence of timestamp blocks (any sizes, any order, any bytes) one TimeRangeReader reads and
+   whatever its buffer held at the start, every block decodes as it does on its own. *)
+Theorem C01_time_reader_reuse_independent : forall reqs buf,
+  trr_read_seq buf reqs = map (fun r => ts_decode (fst r) (snd r)) reqs.
+Proof. exact trr_reuse_independent. Qed.
+Print Assumptions C01_time_reader_reuse_independent.
+
+(* ... so for every list of blocks of timestamps the writer can produce (each non-empty, fewer than 65536
+   timestamps in (0, 2^64), any order inside the block) one reader returns exactly the timestamps sent,
+   block after block - in particular for a block of more than 64 KiB followed by a small one. *)
+Theorem C01_time_reader_reuse_roundtrip : forall tss buf,
+  Forall (fun ts => ts <> [] /\ Forall (fun t => ts_ok t = true) ts /\ N.of_nat (length ts) < 65536) tss ->
+  trr_read_seq buf (map (fun ts => (length ts, ts_encode ts)) tss) = map Some tss.
+Proof. exact trr_reuse_roundtrip. Qed.
+Print Assumptions C01_time_reader_reuse_roundtrip.
+
+(* Why the decoder must be handed the slice [:len]: on the whole buffer, after a block of 8200 timestamps
+   with 8-byte deltas (65610 bytes), a block of 100 timestamps with 1-byte deltas has
+   uint16(65610 - 10) = 64 "available" records and is rejected (ErrTooFewRecords). *)
+Theorem C01_time_reader_whole_buffer_refuted : exists buf ts,
+  ts_decode (length ts) (ts_encode ts) = Some ts /\ (length (ts_encode ts) < length buf)%nat /\
+  ts_decode (length ts) (buf_load buf (ts_encode ts)) = None.
+Proof. exact trr_whole_buffer_refuted. Qed.
+Print Assumptions C01_time_reader_whole_buffer_refuted.
+
+(* Column reader: for every sequence of blocks that are raw blocks (any bytes) or packed dictionaries
+   (fewer than 65536 known words, record numbers below the block's record count) that list EVERY record of
+   their block, and for every previous content of deRecToTlv, one SegmentFileReader returns for each block
+   what a fresh reader returns (read_col; with C01_dict_roundtrip / C01_raw_roundtrip: the records written). *)
+Theorem C01_column_reader_reuse_independent : forall csz reqs cap,
+  Forall reuse_blk_ok reqs ->
+  sfr_read_seq csz (Some cap) reqs = map (fun r => read_col csz (fst r) (snd r)) reqs.
+Proof. exact sfr_reuse_independent. Qed.
+Print Assumptions C01_column_reader_reuse_independent.
+
+(* The guard "lists every record" is needed: a record no entry lists keeps the word index of the block
+   read before (table [1;1], dictionary {backfill: [0]; true: []}: record 1 reads "true", a fresh reader
+   the backfill word).  The writer lists every record while deCount < limit (ColInv in ColStoreProofs). *)
+Theorem C01_column_reader_reuse_unlisted_record_refuted : exists cap n d,
+  N.of_nat (length d) < 65536 /\ Forall (dict_entry_ok n) d /\
+  sfr_read_seq INCONSISTENT (Some cap) [(n, (ENC_DICT, pack_dict (N.of_nat (length d)) d))]
+  <> [read_col INCONSISTENT n (ENC_DICT, pack_dict (N.of_nat (length d)) d)].
+Proof. exact sfr_reuse_uncovered_refuted. Qed.
+Print Assumptions C01_column_reader_reuse_unlisted_record_refuted.
